@@ -259,6 +259,26 @@ def _cells():
     OKM("in:hybrid:rank1_4x3", "hybrid", "compute", [{"gen": "psvd", "m": 4, "n": 3, "sigma": [1.0, 0.0, 0.0], "seed": 3}])
     OKM("in:cgne:zero4x2", "cgne", "compute", [{"gen": "zeros", "m": 4, "n": 2}])
     OKM("in:hybrid:zero4x2", "hybrid", "compute", [{"gen": "zeros", "m": 4, "n": 2}])
+    # uniformly scaled (still regular / Hermitian / full-rank) inputs: a guard with an absolute
+    # threshold must not start rejecting them
+    for sc in (1e-9, 1e-6, 1e6, 1e9):
+        S_ = {"gen": "scale", "c": sc, "of": SQ}
+        Hs = {"gen": "scale", "c": sc, "of": HERM}
+        tag = f"{sc:g}"
+        OK(f"in:lu:scaled_{tag}", "decomp.quaternion_lu", [S_])
+        OK(f"in:lu_p:scaled_{tag}", "decomp.quaternion_lu", [S_], {"return_p": True})
+        OK(f"in:qr:scaled_{tag}", "decomp.qsvd.qr_qua", [S_])
+        OK(f"in:qsvd_full:scaled_{tag}", "decomp.qsvd.classical_qsvd_full", [S_])
+        OK(f"in:rank:scaled_{tag}", "utils.rank", [S_])
+        OK(f"in:hessenbergize:scaled_{tag}", "decomp.hessenberg.hessenbergize", [S_])
+        OK(f"in:eig:scaled_{tag}", "decomp.quaternion_eigendecomposition", [Hs])
+        OK(f"in:tridiagonalize:scaled_{tag}", "decomp.tridiagonalize", [Hs])
+        OK(f"in:det_moore:scaled_{tag}", "utils.det", [Hs, "Moore"])
+        OK(f"in:ishermitian:scaled_{tag}", "utils.ishermitian", [Hs])
+        OK(f"in:power_iteration:scaled_{tag}", "utils.power_iteration", [Hs], {"max_iterations": 5})
+        OKM(f"in:gmres_lu:scaled_{tag}", "gmres_lu", "solve", [S_, G(4, 1, 9)])
+        OKM(f"in:ns:scaled_{tag}", "ns", "compute", [{"gen": "scale", "c": sc, "of": TALL}])
+        OKM(f"in:cgne:scaled_{tag}", "cgne", "compute", [{"gen": "scale", "c": sc, "of": TALL}])
     OKM("in:rsp_column:4x1", "rsp", "compute_column_variant", [COL])
     OKM("in:rsp_column:1x1", "rsp", "compute_column_variant", [ONE])
     OKM("in:rsp_row:1x4", "rsp", "compute_row_variant", [ROW])
